@@ -45,8 +45,84 @@ def main(tier):
                                 "scenario": {"scn": {"inp": inp, "cfg": cfg, "path": path, "strat": "reader", "cap0": 2, "bin": "none",
                                                      "stopAt": 0, "errAt": 0, "faultAt": 0}, "reads": []},
                                 "reference": []})
+    big_part(chk, tier)
     chk.exhaustive = True
     return chk.finish()
+
+
+def big_part(chk, tier):
+    """I->S: random inputs around and beyond the real 64 KiB roll buffer (default capacity, lines longer than the
+    buffer, random read fragmentation); every recorded stream is validated by TLC (GrepJudge.tla) against the
+    reference model evaluated on the input's line table."""
+    import os
+    import random
+    rng = random.Random(vlib.seed() * 7919 + 2)
+    nin = 10 if tier == "quick" else 60
+    jobs, meta = [], []
+    for k in range(nin):
+        term = rng.choice(["lf", "lf", "crlf"])
+        tb = b"\r\n" if term == "crlf" else b"\n"
+        target = rng.choice([65000, 66000, 131000, 140000, 70000])
+        lines = []
+        size = 0
+        while size < target:
+            r = rng.random()
+            if r < 0.02:
+                n = rng.randint(60000, 70000)       # a line longer than the buffer: forces growth
+            elif r < 0.3:
+                n = rng.randint(0, 3)
+            else:
+                n = rng.randint(10, 120)
+            body = bytearray(b"x" * n)
+            if n and rng.random() < 0.25:
+                body[rng.randrange(n)] = ord("m")
+            lines.append(bytes(body))
+            size += n + len(tb)
+        data = tb.join(lines) + (tb if rng.random() < 0.7 else b"")
+        cfg = {"A": rng.choice([0, 0, 1, 3]), "B": rng.choice([0, 0, 1, 3]), "inv": rng.random() < 0.3, "pass": rng.random() < 0.15,
+               "stopnm": False, "lnum": True, "term": term}
+        if cfg["pass"]:
+            cfg["A"] = cfg["B"] = 0
+        for strat, extra in (("slice", {}), ("mmap", {}), ("reader", {"fallback": 0}), ("reader", {"fallback": rng.choice([1, 7, 4096, 65536])}),
+                             ("reader", {"reads": [rng.randint(1, 70000) for _ in range(400)]})):
+            for path in ("slow", "fast"):
+                if strat == "reader" and extra.get("fallback") == 1 and path == "fast":
+                    continue
+                scn = {"inp": list(data), "cfg": cfg, "strat": strat, "path": path, "cap0": None, "bin": "none", "stopAt": 0, "errAt": 0, "faultAt": 0}
+                j = {"scn": scn, "reads": extra.get("reads", []), "fallback": extra.get("fallback", 0)}
+                jobs.append(j)
+                meta.append((k, strat, path, data, cfg))
+    obs = vlib.run_driver("replay_search", jobs, parallel=10, timeout=3000)
+    chk.evaluations += len(jobs)
+    os.makedirs(os.path.join(vlib.WORK, "c02"), exist_ok=True)
+    rpath = os.path.join(vlib.WORK, "c02", "runs_%d.ndjson" % os.getpid())
+    with open(rpath, "w") as f:
+        for rid, ((k, strat, path, data, cfg), o) in enumerate(zip(meta, obs), 1):
+            L, s = [], 0
+            while s < len(data):
+                e = data.find(b"\n", s)
+                e = len(data) if e < 0 else e + 1
+                L.append({"s": s, "e": e})
+                s = e
+            sel = [i + 1 for i, l in enumerate(L) if (b"m" in data[l["s"]:l["e"]]) != cfg["inv"]]
+            f.write(json.dumps({"id": rid, "L": L, "sel": sel, "cfg": cfg, "total": len(data),
+                                "obs": [{"k": e["k"], "ln": e["ln"], "off": e["off"], "len": e["len"]} for e in o["out"]]}) + "\n")
+    res = vlib.tlc("search/GrepJudge", "GrepJudge", workers=10, timeout=3000, env={"RUNS": rpath}, xmx="16g")
+    os.remove(rpath)
+    if res.rc != 0:
+        raise vlib.ToolError("GrepJudge failed:\n" + res.tail(40))
+    chk.add_tlc(res)
+    bad = set(v["id"] for v in res.emits("VERDICT"))
+    vlib.log("[C02] big inputs: %d recorded streams judged by TLC in %.1fs, %d rejected" % (len(jobs), res.wall, len(bad)))
+    for rid, ((k, strat, path, data, cfg), o, j) in enumerate(zip(meta, obs, jobs), 1):
+        if rid in bad or o["result"] != "ok" or not o.get("bytes_ok", True):
+            chk.violation({"what": "big_input", "strat": strat, "path": path, "term": cfg["term"], "inv": cfg["inv"], "pass": cfg["pass"]},
+                          {"why": "stream recorded on a large input is not the reference stream (or the search failed: %s)" % o["result"],
+                           "cfg": cfg, "input_len": len(data), "observed_head": o["out"][:6], "reads": j["reads"][:10], "fallback": j["fallback"],
+                           "input_seed": [vlib.seed(), k], "scenario": {"scn": dict(j["scn"], inp=[]), "reads": []}, "reference": []})
+        else:
+            chk.validated += 1
+            chk.nontrivial_case("big:%d:%s:%s:%s" % (k, strat, path, j["fallback"]))
 
 
 def replay(path):
